@@ -410,13 +410,14 @@ theorem backward_ok_form (h : Heap) (L : Nat) (seed : Seed) (h' : Heap) (hok : b
       · split at hok
         · cases hok
         · simp only [Except.ok.injEq] at hok
-          obtain ⟨n1, n2, n3⟩ := nullFold_graph_fields touched h
+          obtain ⟨n1, n2, n3⟩ := nullFold_graph_fields touched (startOver h L)
           refine ⟨_, hok.symm, fun t => ?_, fun f => ?_, ?_⟩
-          · rw [(storeGrads_graph_fields _ _).1 t, n1]
-          · rw [(storeGrads_graph_fields _ _).2.1 f, n2]
+          · rw [(storeGrads_graph_fields _ _).1 t, n1, startOver_creator]
+          · rw [(storeGrads_graph_fields _ _).2.1 f, n2, startOver_op]
           · have := (storeGrads_graph_fields
-              (backwardGrads (touched.foldl (fun h t => h.modT t ({ · with grad := none, viewGrad := none })) h) L topo ‹Val›).1
-              (touched.foldl (fun h t => h.modT t ({ · with grad := none, viewGrad := none })) h)).2.2
+              (backwardGrads (touched.foldl (fun h t => h.modT t ({ · with grad := none, viewGrad := none })) (startOver h L)) L topo ‹Val›).1
+              (touched.foldl (fun h t => h.modT t ({ · with grad := none, viewGrad := none })) (startOver h L))).2.2
+            have hs := startOver_next h L
             omega
 
 /-- **backward_clears_upstream.**  After a completed `backward()` on an acyclic heap, the terminal
